@@ -114,6 +114,24 @@ func (cp *composer) value(data []byte, depth int, inHandler bool) (val interface
 			return s, p0 + pp, e
 		}
 	case rjson.NumberType:
+		switch cp.r.Intn(4) {
+		case 0:
+			// integer first, float as the fallback (a common style for ids and counters); the two
+			// readers must agree on where the number ends and, converted, on its value
+			cp.use("ReadInt64-then-ReadFloat64")
+			if i, pp, e := rjson.ReadInt64(rest); e == nil && i != 0 { // zero goes to the float reader: an integer cannot carry the sign of -0
+				return float64(i), p0 + pp, nil
+			}
+			f, pp, e := rjson.ReadFloat64(rest)
+			return f, p0 + pp, e
+		case 1:
+			cp.use("ReadUint64-then-ReadFloat64")
+			if u, pp, e := rjson.ReadUint64(rest); e == nil && u != 0 {
+				return float64(u), p0 + pp, nil
+			}
+			f, pp, e := rjson.ReadFloat64(rest)
+			return f, p0 + pp, e
+		}
 		if cp.r.Intn(2) == 0 {
 			cp.use("ReadFloat64")
 			f, pp, e := rjson.ReadFloat64(rest)
